@@ -369,7 +369,7 @@ impl<K: KeyT, V: ValT> World<K, V> {
                         let mut kept = q!(Vec::new());
                         let mut n = 0;
                         loop {
-                            q!(hints.push(json!([it.size_hint().0, it.size_hint().1, it.len()])));
+                            q!(hints.push(json!([it.size_hint().0, it.size_hint().1.map_or(-1, |x| x as i64), it.len()])));
                             if let Some(t) = take {
                                 if n >= t {
                                     break;
@@ -406,7 +406,7 @@ impl<K: KeyT, V: ValT> World<K, V> {
                         let mut kept = q!(Vec::new());
                         let mut n = 0;
                         loop {
-                            q!(hints.push(json!([it.size_hint().0, it.size_hint().1, it.len()])));
+                            q!(hints.push(json!([it.size_hint().0, it.size_hint().1.map_or(-1, |x| x as i64), it.len()])));
                             if let Some(t) = take {
                                 if n >= t {
                                     break;
@@ -463,7 +463,7 @@ impl<K: KeyT, V: ValT> World<K, V> {
                             let mut kept = q!(Vec::new());
                             let mut n = 0;
                             loop {
-                                q!(hints.push(json!([it.size_hint().0, it.size_hint().1, it.len()])));
+                                q!(hints.push(json!([it.size_hint().0, it.size_hint().1.map_or(-1, |x| x as i64), it.len()])));
                                 if let Some(t) = take {
                                     if n >= t {
                                         break;
@@ -492,7 +492,7 @@ impl<K: KeyT, V: ValT> World<K, V> {
                             let mut kept = q!(Vec::new());
                             let mut n = 0;
                             loop {
-                                q!(hints.push(json!([it.size_hint().0, it.size_hint().1, it.len()])));
+                                q!(hints.push(json!([it.size_hint().0, it.size_hint().1.map_or(-1, |x| x as i64), it.len()])));
                                 if let Some(t) = take {
                                     if n >= t {
                                         break;
@@ -553,7 +553,7 @@ impl<K: KeyT, V: ValT> World<K, V> {
                         let mut it = $it;
                         let mut n = 0usize;
                         loop {
-                            q!(hints.push(json!([it.size_hint().0, it.size_hint().1, it.len()])));
+                            q!(hints.push(json!([it.size_hint().0, it.size_hint().1.map_or(-1, |x| x as i64), it.len()])));
                             if let Some(t) = take {
                                 if n >= t {
                                     break;
